@@ -88,6 +88,7 @@ fn main() {
             println!("setup: built {} corpus crates", pkgs.len());
         }
         "c05-child" => c05::child(&args),
+        "c05-drop-child" => c05::drop_child(&args),
         _ => usage(),
     }
 }
